@@ -797,6 +797,10 @@ func (c *Client) Do(ctx context.Context, q Query) (err error) {
 			// Canceled by the caller, but another goroutine was first to fail on the
 			// consequences (e.g. the sender finding the client already closed).
 			err = multierr.Append(ctxErr, err)
+		} else if d, ok := callCtx.Deadline(); ok && !time.Now().Before(d) && !errors.Is(err, context.DeadlineExceeded) {
+			// The read deadline is taken from the context deadline and can fire
+			// just before the context's own timer does.
+			err = multierr.Append(context.DeadlineExceeded, err)
 		}
 		return err
 	}
